@@ -55,7 +55,8 @@ pub fn plan(prop: &str, thorough: bool) -> Vec<EnginePlan> {
     let seq = |q: u32, t: u32| EnginePlan { engine: "seq", workers: 16, cases_per_worker: if thorough { t } else { q }, timeout_s: wd };
     match prop {
         "C01" | "C05" | "C06" | "C07" | "C16" => v.push(seq(6000, 20000)),
-        "C03" | "C04" | "C10" | "C11" => v.push(seq(6000, 20000)),
+        "C03" => v.push(seq(10000, 30000)),
+        "C04" | "C10" | "C11" => v.push(seq(6000, 20000)),
         "C08" => v.push(seq(3000, 10000)),
         "C09" => v.push(seq(300, 600)),
         "C12" | "C13" => v.push(seq(6000, 20000)),
